@@ -19,6 +19,37 @@ func (w *World) WriteFloats(v int, vals []float64) {
 	w.emit(&Event{Op: "Write", Args: []int{v + 1}, Ty: "float64", In: in, Res: res, Cnt: cnt, Allocs: lastAllocs})
 }
 
+// AppendSampleFloat / SetSampleFloat: single-sample forms with an arbitrary float value (float views only).
+func (w *World) AppendSampleFloat(v int, f float64) {
+	res := run(func() { w.Views[v].AppendSampleF64(f) })
+	w.emit(&Event{Op: "AppendSample", Args: []int{v + 1, int(codeOf(f))}, Res: res, Cnt: -1, Allocs: lastAllocs})
+}
+
+func (w *World) SetSampleFloat(v, i int, f float64) {
+	res := run(func() { w.Views[v].SetSampleF64(i, f) })
+	w.emit(&Event{Op: "SetSample", Args: []int{v + 1, i, int(codeOf(f))}, Res: res, Cnt: -1, Allocs: lastAllocs})
+}
+
+// isFloatTy reports whether a harness element type is a floating-point type.
+func isFloatTy(ty string) bool { return kindClass(KindOf(ty)) == "Float" }
+
+// oddFloats: values whose bit patterns matter (negative zero, NaN, infinities, a subnormal) besides ordinary ones;
+// all exactly representable in float32.
+var oddFloats = []float64{math.Copysign(0, -1), math.Float64frombits(0x7FF8000000000000), math.Inf(1), math.Inf(-1), 0.5, -0.25, 0, math.Ldexp(1, -140), 3}
+
+// floatsFor mixes stamps with odd floats.
+func (w *World) floatsFor(rng *rand.Rand, n int) []float64 {
+	out := make([]float64, n)
+	for i := range out {
+		if rng.Intn(3) == 0 {
+			out[i] = oddFloats[rng.Intn(len(oddFloats))]
+		} else {
+			out[i] = float64(w.NextStamp())
+		}
+	}
+	return out
+}
+
 func (v *buf[T]) WriteF64(vals []float64) int {
 	begin()
 	n := signal.Write(vals, v.b)
